@@ -358,6 +358,15 @@ pub fn run(rep: &mut Report, rng: &mut Rng, thorough: bool) {
                 }
             }
         }
+        // short reads and Interrupted on each of the four input streams: the same bytes
+        for (pieces, intr) in [(vec![], [2usize, 0, 0, 0]), (vec![3usize], [0, 2, 2, 0]), (vec![5], [0, 0, 0, 2]), (vec![1, 2, 3], [3, 2, 5, 2]), (vec![40], [2, 3, 3, 3])] {
+            rep.evaluations += 1;
+            match crate::bcj2::real_decode_intr(&s, data.len() as u64, &pieces, &[*r.pick(&[1usize, 7, 4096])], intr) {
+                Outcome::Ok(out) if out == data => rep.count("bcj2.interrupted.same"),
+                other => rep.fail("short-reads-change-result:bcj2:interrupted", &format!("BCJ2Reader over sources that report Interrupted (every k-th call of stream i, k = {:?}; pieces {:?}): {}", intr, pieces, match &other { Outcome::Ok(out) => format!("Ok with {} of {} bytes", out.len(), data.len()), o => o.describe() }),
+                    json!({"format": "bcj2", "data_hex": hex(&data), "convert": conv, "interrupt_every": intr, "pieces": pieces, "case": i})),
+            }
+        }
         rep.case(format!("bcj2:{}", size_class(len)), true, || json!({"format": "bcj2", "data_hex": hex(&data), "convert": conv}));
     }
     // writers: short-writing sinks give the same bytes; sink errors are reported
